@@ -244,7 +244,7 @@ func (m *model) text() string {
 
 // pattern returns a regexp and whether it matches text (computed with Go's regexp, which is trusted).
 func (m *model) pattern(text string, wantMatch bool) (string, bool) {
-	cands := []string{"alpha", "^beta$", "gam+a", "hello w.rld", "foo\\.bar", "a\\+b", "^x$", "line[0-9]", "^4", "delta$", "nomatch", "z{3}", "."}
+	cands := []string{"alpha", "^beta$", "gam+a", "hello w.rld", "foo\\.bar", "a\\+b", "^x$", "line[0-9]", "^4", "delta$", "nomatch", "z{3}", ".", "a", "l", "[a-z]+", "o"}
 	for try := 0; try < 20; try++ {
 		p := cands[m.r.Intn(len(cands))]
 		if ok, _ := matches(p, text); ok == wantMatch {
@@ -291,7 +291,7 @@ func (m *model) gen(wantOK bool) (text string, out outcome, what string, apply f
 	}
 retry:
 	for tries := 0; tries < 60; tries++ {
-		k := m.r.Intn(31)
+		k := m.r.Intn(34)
 		var t string
 		var o outcome = oOK
 		var ap func()
@@ -730,7 +730,7 @@ retry:
 				}
 				t, o = "exec vhelper out 'unterminated", oFail
 			}
-		case 19, 20: // stdout / stderr pattern
+		case 19, 20, 31, 32, 33: // stdout / stderr pattern
 			w = "match"
 			if !m.stdoutKnown {
 				continue
@@ -741,6 +741,21 @@ retry:
 				text = m.stderr
 			}
 			neg := m.r.Intn(3) == 0
+			if !wantOK && !neg && m.r.Intn(3) != 0 {
+				// the pattern matches, but not the demanded number of times
+				p, ok := m.pattern(text, true)
+				if !ok {
+					continue
+				}
+				_, n := matches(p, text)
+				if n > 1 && m.r.Intn(2) == 0 {
+					n--
+				} else {
+					n++
+				}
+				t, o = fmt.Sprintf("%s -count=%d %s", which, n, q(p)), oFail
+				break
+			}
 			wantMatch := wantOK != neg
 			p, ok := m.pattern(text, wantMatch)
 			if !ok {
@@ -749,28 +764,12 @@ retry:
 			t = which + " " + q(p)
 			if neg {
 				t = "! " + t
-			} else if wantMatch && m.r.Intn(3) == 0 {
+			} else if wantOK && m.r.Intn(2) == 0 {
 				_, n := matches(p, text)
-				if !wantOK {
-					if n > 1 && m.r.Intn(2) == 0 {
-						n--
-					} else {
-						n++
-					}
-				}
 				t = fmt.Sprintf("%s -count=%d %s", which, n, q(p))
 			}
 			if !wantOK {
 				o = oFail
-				if !neg && wantMatch {
-					// only the -count form can fail while matching
-					if !strings.Contains(t, "-count=") {
-						continue
-					}
-				}
-			}
-			if wantOK && !neg && !wantMatch {
-				continue
 			}
 		case 21: // grep
 			w = "grep"
@@ -787,6 +786,23 @@ retry:
 			t = "grep " + q(p) + " " + m.spell(f)
 			if neg {
 				t = "! " + t
+			} else if wantMatch {
+				_, n := matches(p, m.fs[f].data)
+				if wantOK && m.r.Intn(2) == 0 {
+					t = fmt.Sprintf("grep -count=%d %s %s", n, q(p), m.spell(f))
+				}
+			}
+			if !wantOK && !neg && m.r.Intn(2) == 0 {
+				if pm, ok := m.pattern(m.fs[f].data, true); ok {
+					_, n := matches(pm, m.fs[f].data)
+					if n > 1 && m.r.Intn(2) == 0 {
+						n--
+					} else {
+						n++
+					}
+					t, o = fmt.Sprintf("grep -count=%d %s %s", n, q(pm), m.spell(f)), oFail
+					break
+				}
 			}
 			if !wantOK {
 				o = oFail
